@@ -4,6 +4,7 @@ import QuillModel.NamedArgs.Split
 import QuillModel.NamedArgs.Pairs
 import QuillModel.NamedArgs.Json
 import QuillModel.NamedArgs.Message
+import QuillModel.NamedArgs.JsonParse
 /-!
 # C19 — named placeholders: matching text, ordered key/value pairs, one JSON object per line
 
@@ -239,6 +240,34 @@ theorem C19_json_single_line (layout : List (Str × HdrField)) (hl : layout ≠ 
         (∃ kf ∈ layout, '\n' ∈ kf.1 ∨ (kf.2 ≠ .messageFormat ∧ '\n' ∈ h.get tmpl kf.2)) ∨
         (∃ kv ∈ pairs.getD [], '\n' ∈ kv.1 ∨ '\n' ∈ kv.2))) :=
   ⟨jsonBody layout h tmpl pairs, jsonLine_eq_body layout h tmpl pairs, jsonBody_newline_iff layout hl h tmpl pairs⟩
+
+/-- **C19, the line parses whenever nothing needs escaping.** If no key, no header value, not the (rewritten) template
+    and no pair contains a quote, a backslash or a control character, then the object read back by the flat JSON
+    reader (`parseFlat`: `{"k":"v",…}` with unescaped strings) is exactly the header members in layout order followed
+    by the named pairs in their order. -/
+theorem C19_json_parses (layout : List (Str × HdrField)) (hl : layout ≠ []) (h : Hdr) (tmpl : Str)
+    (pairs : Option (List (Str × Str)))
+    (hk : ∀ kf ∈ layout, noEscapeNeeded kf.1 = true ∧ noEscapeNeeded (h.get (tmpl.map replNl) kf.2) = true)
+    (hp : ∀ kv ∈ pairs.getD [], noEscapeNeeded kv.1 = true ∧ noEscapeNeeded kv.2 = true) :
+    ∃ body, jsonLine layout h tmpl pairs = body ++ ['\n'] ∧
+      parseFlat body = some (layout.map (fun kf => (kf.1, h.get (tmpl.map replNl) kf.2)) ++ pairs.getD []) := by
+  refine ⟨jsonBody layout h tmpl pairs, jsonLine_eq_body layout h tmpl pairs, ?_⟩
+  rw [jsonBody_members layout hl, removeNewlines_eq]
+  have := parseFlat_members (layout.map (fun kf => (kf.1, h.get (tmpl.map replNl) kf.2)) ++ pairs.getD []) (by
+    intro m hm
+    rcases List.mem_append.1 hm with h1 | h1
+    · obtain ⟨kf, hkf, rfl⟩ := List.mem_map.1 h1
+      exact hk kf hkf
+    · exact hp m h1)
+  simpa [List.map_append, List.map_map, Function.comp_def] using this
+
+example : parseFlat "{\"timestamp\":\"7\",\"message\":\"a {x}\",\"x\":\"1\"}".toList
+    = some [("timestamp".toList, ['7']), ("message".toList, "a {x}".toList), (['x'], ['1'])] := by decide
+
+/-- a quote inside a value breaks the object (nothing is escaped by the sink): why the hypothesis is there -/
+example : parseFlat (jsonBody [("m".toList, .messageFormat)]
+      { timestamp := [], fileName := [], line := [], threadId := [], logger := [], logLevel := [] }
+      ['t'] (some [(['x'], "a\"b".toList)])) = none := by decide
 
 /-- the rewritten template never contains a newline and differs from the template only there -/
 theorem C19_template_newlines (tmpl : Str) :
